@@ -52,25 +52,27 @@ theorem source_swap_blades_total (b1 b2 t : List Nat) (hnd : t.Nodup) :
   swap_blades_eq b1 b2 t hnd
 
 /-- **non-canonical spellings, in the source**: for a permuted spelling of a blade name the python `_blade2canon` returns
-    the canonical name and a swap count whose parity is the orientation of the spelling relative to that name -/
-theorem source_noncanonical_spelling_sign (c : Cfg) (h : c.admissible = true) (h14 : ∀ v ∈ c.vecs, v < 14)
+    the canonical name and a swap count whose parity is the orientation of the spelling relative to that name (labels are single
+    hex digits, which `admissible` checks; the labels 14 = `e` and 15 = `f` are included since fix of `_blade2canon` that strips the
+    prefix `e` before `_swap_blades`) -/
+theorem source_noncanonical_spelling_sign (c : Cfg) (h : c.admissible = true)
     (sp n : List Nat) (hn : n ∈ c.basis) (hp : sp.Perm n) :
     ∃ canon swaps, Src.blade2canon (algOf c) (pyName sp) = .ok (pyName canon, Int.ofNat swaps) ∧
       canon ∈ c.basis ∧ canon.Perm sp ∧
       evalWord c.sigBits (c.wordOf sp) = SB.smul ((-1) ^ swaps) (evalWord c.sigBits (c.wordOf canon)) := by
-  obtain ⟨canon, swaps, h1, h2, h3, h4⟩ := blade2canon_perm c (Cfg.adm_of_admissible c h) h14 sp n hn hp
+  obtain ⟨canon, swaps, h1, h2, h3, h4⟩ := blade2canon_perm c (Cfg.adm_of_admissible c h) (labels_lt_16 c h) sp n hn hp
   obtain ⟨canon', swaps', g1, g2, g3, g4⟩ := noncanonical_spelling_sign c h sp n hn hp
   rw [h2] at g1
   cases g1
   exact ⟨canon, swaps, h1, g2, g3, g4⟩
 
-/-- spellings with a letter that is no generator of the algebra: the python returns the spelling itself (which is no key of
+/-- spellings (over single hex digits) with a letter that is no generator of the algebra: the python returns the spelling itself (which is no key of
     `canon2bin`: callers then read 0 / raise KeyError) with 0 swaps, and never raises.  Before fix 77ca12f it returned the made-up
     name `'e' + str(2**d)`, which IS a blade name e.g. for `start_index = 2**d` or in `Algebra(8)` (`e256`). -/
-theorem source_foreign_spelling (c : Cfg) (h : c.admissible = true) (h14 : ∀ v ∈ c.vecs, v < 14)
-    (sp : List Nat) (hsp : ∀ l ∈ sp, l < 14) (hnone : c.blade2canon sp = none) :
+theorem source_foreign_spelling (c : Cfg) (h : c.admissible = true)
+    (sp : List Nat) (hsp : ∀ l ∈ sp, l < 16) (hnone : c.blade2canon sp = none) :
     Src.blade2canon (algOf c) (pyName sp) = .ok (pyName sp, 0) := by
-  rw [blade2canon_eq c (Cfg.adm_of_admissible c h) h14 sp hsp, hnone]
+  rw [blade2canon_eq c (Cfg.adm_of_admissible c h) (labels_lt_16 c h) sp hsp, hnone]
 
 /-- **the configuration itself, from the source**: the naming statement of `Algebra.__post_init__` builds, for a default
     basis, exactly the blade names of the model configuration in exactly its canonical order, and maps every bitmask to
@@ -82,17 +84,16 @@ theorem source_default_configuration (sig : List Int) (start : Nat) (hstart : st
         Py.dictGet? b2c (Int.ofNat I) = some (pyName ((Cfg.default sig start).nameOf I)) :=
   post_init_default_eq sig start hstart
 
-/-- ... and for an admissible custom basis (decimal generator labels): the asserts pass, the start index is the smallest
+/-- ... and for an admissible custom basis (generator labels are single hex digits, `0`..`f`): the asserts pass, the start index is the smallest
     label, bitmasks follow the position of the generators in the basis, the canonical order is the given order -/
 theorem source_custom_configuration (sig : List Int) (basis : List (List Nat)) (start0 : Int)
-    (h : (Cfg.custom sig basis).admissible = true) (hne : basis ≠ [])
-    (hdec : ∀ v ∈ (Cfg.custom sig basis).vecs, v < 10) :
+    (h : (Cfg.custom sig basis).admissible = true) (hne : basis ≠ []) :
     ∃ b2c, Src.post_init_names (basis.map pyName) (Int.ofNat sig.length) start0 =
         .ok (if (Cfg.custom sig basis).vecs = [] then start0 else Int.ofNat (Cfg.custom sig basis).start,
              basis.map (fun n => (pyName n, Int.ofNat ((Cfg.custom sig basis).binOf n))), b2c) ∧
       ∀ I, I < 2 ^ sig.length →
         Py.dictGet? b2c (Int.ofNat I) = some (pyName ((Cfg.custom sig basis).nameOf I)) :=
-  post_init_custom_eq sig basis start0 h hne hdec
+  post_init_custom_eq sig basis start0 h hne
 
 /-- a basis that is not ordered by grade is rejected by the source -/
 theorem source_rejects_unsorted_basis (basis : List (List Nat)) (d : Nat) (start0 : Int)
@@ -126,5 +127,22 @@ theorem source_grade_tables (c : Cfg) (h : c.admissible = true) :
 example : Src.compute_sign (algOf (Cfg.custom [0, 1, 1, 1]
     [[], [0], [1], [2], [3], [0, 1], [0, 2], [0, 3], [1, 2], [3, 1], [2, 3], [0, 2, 1], [0, 1, 3], [0, 3, 2], [1, 2, 3], [0, 1, 2, 3]]))
     (10, 1) none = .ok (-1) := by decide +kernel
+
+/-- non-vacuity for labels that are spelled with the letters `e`, `f`: the configuration with start index 13 (generators `ed`, `ee`,
+    `ef`) is admissible, and the spelling `edfe` of the pseudoscalar resolves to the canonical name `edef` with ONE swap, `eed` to
+    `ede` with one swap (before the fix of `_blade2canon` the prefix `e` took part in `_swap_blades` and was confused with the label
+    14 = `e`) -/
+example : (Cfg.default [1, 1, 1] 13).admissible = true ∧
+    Src.blade2canon (algOf (Cfg.default [1, 1, 1] 13)) (pyName [13, 15, 14]) = .ok (pyName [13, 14, 15], 1) ∧
+    Src.blade2canon (algOf (Cfg.default [1, 1, 1] 13)) "eed".toList = .ok ("ede".toList, 1) := by decide +kernel
+
+/-- non-vacuity of `source_custom_configuration` for labels beyond `9` (formerly excluded: `int(min(vecs))` raised on `'d'`; now
+    `int(min(vecs), base=16)`): the custom basis `e, ed, ee, ede` over the signature `[-1, 0]` is admissible, none of the asserts
+    fires, the start index becomes 13 (the given `start_index = 1` is overwritten), and `canon2bin` / `bin2canon` follow the
+    given order -/
+example : (Cfg.custom [-1, 0] [[], [13], [14], [13, 14]]).admissible = true ∧
+    Src.post_init_names ([[], [13], [14], [13, 14]].map pyName) 2 1 =
+      .ok (13, [("e".toList, 0), ("ed".toList, 1), ("ee".toList, 2), ("ede".toList, 3)],
+               [(0, "e".toList), (1, "ed".toList), (2, "ee".toList), (3, "ede".toList)]) := by decide +kernel
 
 end Kingdon.C01
